@@ -6,7 +6,10 @@ from vlib import sx
 def real_line(doc):
     import traceback
     try:
-        return pm.run_real(doc)
+        with docs.time_limit(20):
+            return pm.run_real(doc)
+    except docs.Hang:
+        return 'err:Hang@layout'
     except Exception as exc:  # noqa: BLE001
         frames = [f for f in traceback.extract_tb(exc.__traceback__) if '/weasyprint/' in f.filename]
         where = f'{frames[-1].filename.split("/")[-1]}:{frames[-1].name}' if frames else 'harness'
